@@ -156,6 +156,9 @@ pub mod rete;
 pub mod streaming;
 /// Core type definitions for values, operators, and actions
 pub mod types;
+/// Verification hooks (compiled only with `--cfg rre_verif`)
+#[cfg(rre_verif)]
+pub mod verif_hooks;
 
 // Re-export core types for easy access
 pub use errors::{Result, RuleEngineError};
